@@ -735,7 +735,7 @@ def check_C05(ctx):
                        "generated scenarios stay out of the C17 known-finding region (late / second successors)"]
     frames_check(ctx, {"CT_FLUSHBAR", "HM_PUSH", "HM_POP", "OUT_ROWS", "OUT_UNEXPECTED", "CT_FRAME", "NOTIFY", "HM_SYNC",
                        "HM_ITERREQ", "CT_ADD", "HM_STATE", "HM_END"},
-                 c05_monitor, 150, 4000, CONT_DEPS | {"Props/C05.v"})
+                 c05_monitor, 150, 4000, CONT_DEPS | {"GenChecks.v", "gen/GenApi.v", "Props/C05.v"})
 
 
 import monitors as M
@@ -760,7 +760,7 @@ def check_C17(ctx):
     ctx.cov["rule"] = FRAME_RULE + "; scenarios with queued bars only count as non-trivial"
     ctx.assumptions = ["one successor per predecessor, created while the predecessor has not been flushed in its second terminal "
                        "frame; the other histories are the known finding (directed witnesses)"]
-    frames_check(ctx, {"CT_FLUSHBAR", "HM_PUSH", "OUT_ROWS", "CT_ADD", "HM_POP"}, M.c17_monitor, 300, 6000, CONT_DEPS | {"Props/C17.v"},
+    frames_check(ctx, {"CT_FLUSHBAR", "HM_PUSH", "OUT_ROWS", "CT_ADD", "HM_POP"}, M.c17_monitor, 300, 6000, CONT_DEPS | {"ContainerFlush.v", "Props/C17.v"},
                  nontrivial=lambda case, frames: any("after=" in l and "after=-1" not in l for l in case["trace"]) and len(frames) >= 2)
     c17_directed(ctx)
 
@@ -770,7 +770,7 @@ def check_C18(ctx):
     ctx.cov["rule"] = FRAME_RULE + "; pop-mode scenarios with at least one popped bar count as non-trivial"
     ctx.assumptions = ["user priorities above MinInt32 + number of bars", "rows fit the height (non-terminal output: height = width)"]
     frames_check(ctx, {"CT_FLUSHBAR", "CT_FRAME", "OUT_ROWS", "OUT_CUU", "OUT_ORDER", "HM_PUSH", "HM_POP"}, M.c18_monitor, 300, 6000,
-                 CONT_DEPS | {"Props/C18.v"},
+                 CONT_DEPS | {"ContainerFlush.v", "ContainerOut.v", "Term.v", "Props/C18.v"},
                  nontrivial=lambda case, frames: case["cfg"][5] == "1" and any(" CT_FLUSHBAR " in l and l.split()[4] == "2" for l in case["trace"]))
 
 
@@ -780,25 +780,76 @@ def check_C03(ctx):
     ctx.assumptions = ["refreshing container = auto refresh; in manual mode only 'no output after Wait' is checked (the library "
                        "renders only when asked)"]
     frames_check(ctx, {"OUT_CONTENT", "OUT_ROWS", "BAR_RENDER", "FINAL", "CT_FLUSHBAR", "HM_STATE", "OUT_UNEXPECTED", "RET_GET"},
-                 M.c03_monitor, 200, 6000, CONT_DEPS | {"Props/C03.v"})
+                 M.c03_monitor, 200, 6000, CONT_DEPS | {"ContainerLife.v", "ContainerFlush.v", "Props/C03.v"})
 
 
 @check
 def check_C13(ctx):
     ctx.cov["rule"] = FRAME_RULE + "; scenarios with at least one accepted Write count as non-trivial"
     ctx.assumptions = ["text = whole newline-terminated lines", "writes accepted while a render delay is pending are outside the property"]
-    frames_check(ctx, {"CT_IO", "OUT_TEXT", "OUT_UNEXPECTED", "CT_FRAME"}, M.c13_monitor, 300, 6000, CONT_DEPS | {"Props/C13.v"},
+    frames_check(ctx, {"CT_IO", "OUT_TEXT", "OUT_UNEXPECTED", "CT_FRAME"}, M.c13_monitor, 300, 6000, CONT_DEPS | {"ContainerLife.v", "ContainerFlush.v", "ContainerOut.v", "Term.v", "Props/C13.v"},
                  nontrivial=lambda case, frames: any(" RET_WRITE " in l for l in case["trace"]))
 
 
 @check
 def check_C04(ctx):
-    ctx.cov["rule"] = FRAME_RULE
-    ctx.assumptions = ["non-terminal output: the library assumes height = width; the terminal path is exercised by the pty sweep"]
+    ctx.cov["rule"] = FRAME_RULE + ("; pty family: the container writes to a pseudo terminal of 4-11 rows x 40-79 columns with fewer, one fewer, "
+                                    "exactly as many and more bar row groups than rows (extender rows, pop mode, text lines), and the bytes "
+                                    "are replayed on a terminal of that size with scrollback")
+    ctx.assumptions = ["non-terminal output: the library assumes height = width", "the pty replay interprets CR LF, ESC[nA and ESC[J only "
+                       "(the only controls the library emits); lines never wrap because C07/C09 bound their width"]
     frames_check(ctx, {"OUT_CUU", "CT_FRAME", "OUT_ROWS", "OUT_UNEXPECTED", "CT_DELAYEND", "OUT_TEXT"}, M.c04_monitor, 200, 6000,
-                 CONT_DEPS | {"Props/C04.v", "Term.v", "TermProofs.v"})
+                 CONT_DEPS | {"ContainerFlush.v", "ContainerOut.v", "Term.v", "Props/C04.v"})
+    if ctx.harness:
+        pty_check(ctx)
 
 
+def pty_check(ctx):
+    import ast
+    runs = []
+    if ctx.replay:
+        rp = json.load(open(ctx.replay))
+        if rp.get("family") != "pty":
+            return
+        sc = write_script(ctx, "replay_pty.txt", rp["case"])
+        runs.append(ctx.run_family("pty", 0, extra=sc, tag=".replay", model=False))
+    elif ctx.tier == "quick":
+        runs.append(ctx.run_family("pty", 60, model=False))
+    else:
+        for i in range(4):
+            runs.append(ctx.run_family("pty", 400, seed=ctx.seed * 1000 + i, model=False))
+    sigs = set()
+    for run in runs:
+        if run["rc"] != 0:
+            ctx.add_violation("pty run failed: " + run["log"][-1200:], "pty-run-failed", {"family": "pty", "run_seed": run["seed"], "n": run["n"]})
+            continue
+        cur = None
+        cases = []
+        for l in read_lines(os.path.join(run["dir"], "cases.txt")):
+            if l.startswith("case "):
+                cur = {"hdr": l.split(), "line": l, "marks": [], "data": None}
+                cases.append(cur)
+            elif cur is None:
+                continue
+            elif l.startswith("mark "):
+                f = l.split(" ", 2)
+                cur["marks"].append((int(f[1]), f[2]))
+            elif l.startswith("bytes "):
+                cur["data"] = ast.literal_eval(l[6:])
+            elif l.startswith("NOPTY"):
+                ctx.note("no pseudo terminal available: " + l)
+        for c in cases:
+            if c["data"] is None:
+                continue
+            ctx.cov["evaluations"] += 1
+            ctx.distinct(("pty",) + tuple(c["hdr"][2:]))
+            # frame boundaries: after every cursor-up sequence's frame, i.e. before each ESC[ and at the end
+            cuts = [m.start() for m in re.finditer("\x1b\\[", c["data"])] + [None]
+            mon = M.c04_pty_monitor(c["hdr"], [(o, "frame %d" % i) for i, o in enumerate(cuts)], c["data"])
+            if mon and mon[1] not in sigs:
+                sigs.add(mon[1])
+                ctx.add_violation(mon[0], mon[1], {"family": "pty", "run_seed": run["seed"], "n": run["n"], "case": [c["line"]],
+                                                   "bytes": c["data"][:3000]})
 C17_WITNESSES = [
     ("late_successor_after_removed_predecessor.txt", "late-successor-never-displayed",
      "a bar created to queue after a bar that has already left is never displayed and Wait never returns "
@@ -837,7 +888,7 @@ def check_C14(ctx):
     ctx.cov["rule"] = FRAME_RULE + "; cancel / Shutdown placed by the script at any step; shutdown listeners wrapped 0-4 deep on both sides"
     ctx.assumptions = ["cancellation placement is explored by the scripted position plus scheduling perturbation at the hook points"]
     frames_check(ctx, {"BAR_EXIT", "FINAL", "NOTIFY", "HM_END", "CT_DONE", "CT_EXIT"}, M.c14_monitor, 300, 8000,
-                 CONT_DEPS | {"Props/C14.v"}, fams=[("frames", 0.5, True), ("sched", 0.5, True)])
+                 CONT_DEPS | {"ContainerLife.v", "Listen.v", "Props/C14.v"}, fams=[("frames", 0.5, True), ("sched", 0.5, True)])
 
 
 @check
@@ -846,7 +897,7 @@ def check_C15(ctx):
                        "the output (k = 1..4), half of them under scheduling perturbation; non-trivial = the fault fired")
     ctx.assumptions = ["terminal-size query faults need a pty and are exercised by the pty sweep (thorough tier)"]
     frames_check(ctx, {"CT_FLUSHBAR", "CT_RENDERERR", "BAR_DRAWERR", "CT_RENDERBEGIN", "CT_FRAME", "OUT_UNEXPECTED", "HM_PUSH", "CT_EXIT", "BAR_EXIT"},
-                 M.c15_monitor, 200, 6000, CONT_DEPS | {"Props/C15.v"},
+                 M.c15_monitor, 200, 6000, CONT_DEPS | {"ContainerLife.v", "Sync.v", "SyncProofs.v", "Props/C15.v"},
                  nontrivial=lambda case, frames: any(" FAULT " in l or " OUTERR " in l for l in case["trace"]),
                  fams=[("faults", 1.0, True)])
 
@@ -855,7 +906,7 @@ def check_C15(ctx):
 def check_C16(ctx):
     ctx.cov["rule"] = FRAME_RULE + "; after every scenario (normal, cancel, render error, pop, queued, n>q, perturbed) the worker waits up to 1 s and lists goroutines with a library frame"
     ctx.assumptions = ["leak = goroutine with a frame of github.com/vbauerster/mpb/v8 still alive after the settle period"]
-    frames_check(ctx, set(), M.c16_monitor, 300, 8000, CONT_DEPS | {"Props/C16.v"}, fams=ALLFAMS)
+    frames_check(ctx, set(), M.c16_monitor, 300, 8000, CONT_DEPS | {"ContainerLife.v", "GenChecks.v", "gen/GenApi.v", "Props/C16.v"}, fams=ALLFAMS)
 
 
 @check
